@@ -188,3 +188,4 @@ pub mod c02;
 pub mod c29;
 pub mod c10;
 pub mod c22;
+pub mod c07;
